@@ -28,6 +28,7 @@ import (
 	"testing"
 	"time"
 
+	"github.com/pquerna/otp/totp"
 	"golang.org/x/crypto/ssh"
 )
 
@@ -280,6 +281,8 @@ func vBadKeyText(id, format string) string {
 
 // ---------------------------------------------------------------------------
 
+var vUpgradeMu sync.Mutex
+
 type vCPWorlds struct {
 	mu sync.Mutex
 	m  map[string]*vWorld
@@ -491,6 +494,26 @@ func (w *vWorld) execCertPolicy(c map[string]interface{}) (map[string]interface{
 				cl.NotBefore, cl.IssuedAt = authAt, authAt
 				cl.Expiration = authAt + maxAgeSecondsAuthCookie
 				q.Cookies = map[string]string{authCookieName: w.signOurs(cl)}
+			}
+		case "cookie_upgraded":
+			cl := w.goodClaims(norm, AuthTypePassword)
+			cl.NotBefore, cl.IssuedAt = authAt, authAt
+			cl.Expiration = authAt + maxAgeSecondsAuthCookie
+			old := w.signOurs(cl)
+			vUpgradeMu.Lock()
+			w.st.Config.Base.EnableLocalTOTP = true
+			w.armTOTP(norm)
+			w.st.totpLocalTateLimitMutex.Lock()
+			delete(w.st.totpLocalRateLimit, norm)
+			w.st.totpLocalTateLimitMutex.Unlock()
+			code, _ := totp.GenerateCode(vTOTPSecret, time.Now())
+			ur := w.Do(vReq{Method: "POST", Path: totpAuthPath, Cookies: map[string]string{authCookieName: old}, Form: url.Values{"OTP": {code}}})
+			vUpgradeMu.Unlock()
+			q.Cookies = map[string]string{authCookieName: old}
+			if ck := ur.Cookie(authCookieName); ck != nil && ck.Value != "" {
+				q.Cookies[authCookieName] = ck.Value
+			} else {
+				cc["note"] = fmt.Sprintf("upgrade-failed-%d", ur.Status)
 			}
 		case "basic":
 			q.Basic = []string{typed, "pw-" + norm}
